@@ -233,7 +233,7 @@ def qlist_term(ps):
 
 class C15(Spec):
     pid = 'C15'
-    imports = ['C15.Model']
+    imports = ['C15.Model', 'C15.ModelFixed']
     impl_script = 'props/C15/impl.py'
     impl_jobs = 4
     exactness = 'E3 dyadic-exact (slinear on power-of-two spacings, lagrange2 on uniform grids, bracket search); E4 1e-9 otherwise'
@@ -273,6 +273,12 @@ class C15(Spec):
     def got_term(self, c):
         if c['kind'] == 'bracket':
             return '(run_bracket %s (%d) %s)' % (qlist_term(c['grid']), c['last'], qlit(fj(c['x'])))
+        if c['variant'] == 'fixed' and len(c['grids']) == 1 and c['method'] in ('slinear', 'lagrange2', 'lagrange3'):
+            # the 1-D fixed classes have their own executable model (coefficient form + their cell search),
+            # proved equal to the general method over Q (C15_fixed1_eq_general)
+            return '(run_fixed1 %s %s %s %s %s %s)' % (
+                COQ_M[c['method']], qlist_term(c['grids'][0]), tensor_term(c['table']), boollit(c['extrap']),
+                boollit(bool(c.get('history'))), qlist_term([p[0] for p in c['pts']]))
         return '(run_fixed %s [%s] %s %s [%s])' % (
             COQ_M[c['method']], '; '.join(qlist_term(g) for g in c['grids']), tensor_term(c['table']),
             boollit(c['extrap']), '; '.join(qlist_term(p) for p in c['pts']))
